@@ -21,6 +21,12 @@
    post:inherited_state      parameters and return annotation stored exactly as a plain Signature built from the same
                              arguments would store them (so the inherited str/bind/bind_partial behave identically)
 
+ _signatures.UpgradedSignature.evaluated          (unit 'sig_evaluated': a COMBINED signature - its parameters come from two
+        defining functions with their own globals / future flags, the raw annotations may coincide)
+   post:denoted_objects      C11  every parameter's annotation (and the return annotation) of the result is the object the
+                             upgraded annotation denotes in the globals of ITS defining function; unannotated stays unannotated;
+                             names, kinds, defaults unchanged
+
 Parameter-level obligations are tier P (loop-free code, every field symbolic, all five kinds enumerated);
 signature-level ones iterate over the parameter list inside the trusted inspect model: shapes enumerated (tier B)."""
 import z3
@@ -54,6 +60,8 @@ C_INH = clause(UCL, 'class:inherits_str_bind', ['C14'], 'P')
 C_PREP = clause(UPR, 'post:replace_keeps', ['C14', 'C11'], 'P')
 C_SREP = clause(USR, 'post:replace_keeps', ['C14', 'C11'], 'B')
 C_INIT = clause(USI, 'post:inherited_state', ['C14'], 'B')
+
+C_EVAL = clause('_signatures.UpgradedSignature.evaluated', 'post:denoted_objects', ['C11', 'C14'], 'B')
 
 OTHERS = ('self', 'upgraded', 'plain_same', 'plain_sym', 'none', 'foreign')
 
@@ -172,6 +180,16 @@ def make_runner(unit, kind=None, shape=None, other='self', want=None):
                     r.outcome = 'return'
                 except PyExc as e:
                     r.outcome, r.exc = 'raise', e
+            elif unit == 'sig_evaluated':
+                # second contributor: another defining function; the combined signature is what merge / embed return
+                info2 = mk_sig(I, ctx, 't', (0, 0, 0, 1, 0), tracked=False)
+                ctx.add(info2.funcs[0].t != info.funcs[0].t)
+                ctx.add(z3.And(*[info2.names[0] != n for n in info.names]))
+                plist = [p for p in info.params if p.kind != VK] + list(info2.params) + [p for p in info.params if p.kind == VK]
+                comb = I.instantiate(US, [plist], [('return_annotation', info.sig._d['_return_annotation']), ('sources', SymDict()),
+                                                   ('upgraded_return_annotation', info.sig._d['upgraded_return_annotation'])])
+                env['comb'], env['plist'], env['info2'] = comb, plist, info2
+                run_unit(I, I.getattr_(comb, 'evaluated'), [], [], r)
             else:
                 raise EngineLimit('unit %s' % unit)
     return run, env
@@ -279,6 +297,25 @@ def vcs(env, want):
             out.append(VC(C_SREP.full + ':inspect_part', [], z3.And(z3.BoolVal(all(same) and len(same) == len(s._d['_parameters'].plist)),
                                                                      _sig_basis_eq(s, t)), C_SREP.props))
         return out
+    if unit == 'sig_evaluated':
+        if not on(C_EVAL) or r.outcome == 'raise':
+            return out        # (evaluating an annotation runs user code: whatever it raises propagates)
+        E = m.ns['EmptyAnnotation']
+        t = r.value
+        ps = t._d['_parameters'].plist if isinstance(t, Inst) and '_parameters' in t._d else None
+        if ps is None or len(ps) != len(env['plist']):
+            out.append(VC(C_EVAL.full + ':parameters', [], z3.BoolVal(False), C_EVAL.props))
+            return out
+        for p, q in zip(env['plist'], ps):
+            h, den = ua_denotes(p._d['upgraded_annotation'], E)
+            a = q._d['_annotation']
+            same = z3.And(z3.BoolVal(q._d['_kind'] == p._d['_kind'] and q._d['_name'] is p._d['_name']), q._d['_default'].has == p._d['_default'].has,
+                          z3.Implies(p._d['_default'].has, q._d['_default'].val == p._d['_default'].val))
+            out.append(VC(C_EVAL.full + ':' + p._d.get('_vf_tag', '?'), [], z3.And(same, a.has == h, z3.Implies(h, a.val == den)), C_EVAL.props))
+        h, den = ua_denotes(env['comb']._d['upgraded_return_annotation'], E)
+        ra = t._d['_return_annotation']
+        out.append(VC(C_EVAL.full + ':return', [], z3.And(ra.has == h, z3.Implies(h, ra.val == den)), C_EVAL.props))
+        return out
     if unit == 'sig_init':
         if not on(C_INIT):
             return out
@@ -372,6 +409,23 @@ def replay(env, vc, model):
         hit = [b for b in bad if b[0] == key]
         return dict(status='reproduced' if hit else ('other-violation' if bad else 'not-reproduced'), op='dropin:' + unit, other=other,
                     me=str(me), compared_with=repr(o), violated=[list(b) for b in (hit or bad)])
+    if unit == 'sig_evaluated':
+        import sigtools
+        s2 = conc.build_sig(env['info2'])
+        params = [p for p in sig.parameters.values() if p.kind != p.VAR_KEYWORD] + list(s2.parameters.values()) + [p for p in sig.parameters.values() if p.kind == p.VAR_KEYWORD]
+        try:
+            comb = sig.replace(parameters=params)
+            ev = comb.evaluated()
+            for p, q in zip(comb.parameters.values(), ev.parameters.values()):
+                want_ = p.upgraded_annotation.source_value()
+                if q.annotation is not want_ and q.annotation != want_:
+                    bad.append(('post:denoted_objects', 'parameter %s: evaluated() gives %r, its upgraded annotation denotes %r' % (p.name, q.annotation, want_)))
+            want_ = comb.upgraded_return_annotation.source_value()
+            if ev.return_annotation is not want_ and ev.return_annotation != want_:
+                bad.append(('post:denoted_objects', 'return: evaluated() gives %r, denotes %r' % (ev.return_annotation, want_)))
+        except Exception as e:
+            return dict(status='not-reproduced', op='dropin:sig_evaluated', error=repr(e))
+        return dict(status='reproduced' if bad else 'not-reproduced', op='dropin:sig_evaluated', signature=str(comb), violated=[list(b) for b in bad])
     if unit in ('param_replace', 'sig_replace'):
         marker = {} if level == 'sig' else []
         over = other == 'override'
